@@ -434,6 +434,19 @@ func (x *Exec) evalIdent(env *SpecEnv, name string) SVal {
 			return SVal{v, goT(elem)}
 		}
 	}
+	// a variable captured by the closure under verification: its current value (loop invariants of closure bodies)
+	if env.fr != nil {
+		for _, fv := range env.fr.fn.FreeVars {
+			if fv.Name() != name {
+				continue
+			}
+			if bv, has := env.fr.vals[fv]; has {
+				elem := fv.Type().Underlying().(*types.Pointer).Elem()
+				pl := x.ptrPlace(bv, elem)
+				return SVal{x.loadQuiet(env, pl), goT(elem)}
+			}
+		}
+	}
 	// ghost variables of function / loop
 	if v, ok := env.st.ghost["g."+name]; ok {
 		return SVal{v, x.ghostType("g." + name)}
